@@ -61,7 +61,7 @@ func C04(r *core.Run) {
 	sourceCoverage(r)
 	attributeIndependence(r, "sym_sites", "*")
 	attributeIndependenceIn(r, schemaRel, []string{"buf.build/gen/go/bufbuild/protovalidate/protocolbuffers/go/buf/validate", core.Module + "/gen/j5/ext/v1/ext_j5pb", core.Module + "/gen/j5/list/v1/list_j5pb"}, "sym_sites",
-		"buildScalarType", "wktSchema", "buildFromStringProto", "buildEnumFieldSchema", "buildMessageFieldSchema", "Package.messageProperties", "Package.buildSchema")
+		"*") // every function of the package: the reader's helpers come and go with refactorings
 }
 
 // slotAgreement (R-SYM/S3): per integer/float format, the list-rule and
